@@ -742,7 +742,8 @@ def fault_run(box, sc, w, evr, stats, patrn, fsel):
             k = cnt.get("read", 0)
             cnt["read"] = k + 1
             if e["a"] and e["a"][0] in fds:
-                sites.append(("read", k, "5", fds[e["a"][0]]))
+                for er in ("5", "13", "1", "116"):      # EIO, and what an NFS server re-checking permissions answers: EACCES, EPERM, ESTALE
+                    sites.append(("read", k, er, fds[e["a"][0]]))
         elif c == "close" and e["a"] and e["a"][0] in fds:
             del fds[e["a"][0]]
         elif c in ("fork", "exec"):
